@@ -22,7 +22,7 @@ RULE = (
 ASSUMPTIONS = ["reference dihedral vmon/oracles/geom.py (atan2 form), validated against the constructive builder on every builder case",
                "tolerance 1e-9 rad; inputs whose bond-angle sine product is < 1e-3 are out of the stated domain"]
 REQUIRED_MONITORS = ["tertiary.calculate_torsion_angle_coords", "tertiary_v2.calculate_torsion_angle", "tertiary.torsion_angle"]
-REQUIRED_CLAUSES = ["v1.equals-iupac", "v2.equals-iupac", "v1.range", "v2.range", "agree.v1-v2", "v1.reversal", "v1.mirror", "v2.reversal", "v2.mirror", "chi.anti-for-A-form", "builder.reference-self-check"]
+REQUIRED_CLAUSES = ["v1.equals-iupac", "v2.equals-iupac", "v1.range", "v2.range", "agree.v1-v2", "v1.reversal", "v1.mirror", "v2.reversal", "v2.mirror", "chi.anti-for-A-form", "chi.after-annotation-equals-own-coordinates", "builder.reference-self-check"]
 TOL = 1e-9
 _cur = {}
 
@@ -228,6 +228,32 @@ def run_case(case, rec):
                 r.chi
             except Exception:
                 pass
+    # order of operations on one object: full 2D analysis first (stem centroids, inter-stem
+    # parameters), chi read afterwards - it must still be the dihedral of the atoms' own x/y/z
+    with open(path) as f:
+        s3c = parser.read_3d_structure(f, 1)
+    _cur["ctx"] = "chi after extract_secondary_structure"
+    try:
+        annotator.extract_secondary_structure(s3c, 1)
+    except Exception:
+        pass
+    for r in s3c.residues:
+        if not r.is_nucleotide:
+            continue
+        names = ["O4'", "C1'", "N9", "C4"] if r.one_letter_name.upper() in "AG" else ["O4'", "C1'", "N1", "C2"]
+        atoms = [r.find_atom(n) for n in names]
+        if any(a is None for a in atoms):
+            continue
+        ref, margin = geom.dihedral(*[(a.x, a.y, a.z) for a in atoms])
+        if margin < 1e-3:
+            continue
+        try:
+            chi = r.chi
+        except Exception as e:
+            rec.violation("chi.no-crash", {"residue": r.full_name, "exception": repr(e), "after": "extract_secondary_structure"}, mechanism=f"crash:{type(e).__name__}")
+            continue
+        rec.check("chi.after-annotation-equals-own-coordinates", chi is not None and geom.wrapdiff(chi, ref) <= TOL,
+                  lambda: {"residue": r.full_name, "chi": chi, "reference-from-x-y-z": ref})
     # annotator path (cis/trans and BPh use torsion_angle through its own alias)
     _cur["ctx"] = "annotator"
     try:
